@@ -96,6 +96,18 @@ def gen_case(rng, size="m", named_p=0.3):
             kind = rng.choice(["next", "next", "next", "jump"])
             ops.append({"op": "putrace", "tx": ti, "state": st, "kind": kind, "dirty": [a] if rng.random() < 0.8 else []})
             cur = st
+        elif r < 0.765:
+            # two removals of one hash / a removal racing a block arrival
+            ti = rng.randrange(len(txs))
+            if rng.random() < 0.5:
+                ops.append({"op": "rmrace", "tx": ti, "kind": "twice"})
+            else:
+                st = [list(x) for x in cur]
+                a = txs[ti]["acc"]
+                if rng.random() < 0.7:
+                    st[a][0] = max(st[a][0], txs[ti]["nonce"] - rng.choice([0, 0, 1]))
+                ops.append({"op": "rmrace", "tx": ti, "state": st, "kind": rng.choice(["next", "next", "jump"]), "dirty": [a]})
+                cur = st
         elif r < 0.82:
             ops.append({"op": "remove", "tx": rng.randrange(len(txs))})
         elif r < 0.845:
@@ -157,7 +169,7 @@ def block_ids(case):
     best, cid, nxt = 1, 0, 2
     out = []
     for op in case["ops"]:
-        if op["op"] not in ("block", "putrace"):
+        if op["op"] not in ("block", "putrace") and not (op["op"] == "rmrace" and op.get("kind") != "twice"):
             out.append(None)
             continue
         kind = op["kind"]
@@ -203,6 +215,10 @@ def coq_case(case, obs):
             if "order:put-first" in (o.get("extra") or []):
                 break               # the lock was handed over in the other order: compare the prefix only
             e = "ERacePut %d%%nat %d %d %d %s %s" % (op["tx"], bi[0], bi[1], bi[2], st(op["state"]), lN(op["dirty"]))
+        elif kind == "rmrace" and op.get("kind") == "twice":
+            e = "ERmTwice %d%%nat" % op["tx"]
+        elif kind == "rmrace":
+            e = "ERmBlock %d%%nat %d %d %d %s %s" % (op["tx"], bi[0], bi[1], bi[2], st(op["state"]), lN(op["dirty"]))
         elif kind == "evict":
             e = "EEvict %s" % lN(op["accs"])
         elif kind == "evictto":
@@ -289,7 +305,7 @@ def step_predicates(case, obs):
             gone = {l["acc"] for l in obs[si]["lists"]} - {l["acc"] for l in o["lists"]}
             if not gone <= set(op["accs"]):
                 fails.append(("evicted-account-not-selected", "evictto", si, sorted(gone)))
-        if op["op"] in ("block", "putrace"):
+        if op["op"] in ("block", "putrace") or (op["op"] == "rmrace" and op.get("kind") != "twice"):
             bi = bids[si]
             if bi[3] != "same":
                 cur = [list(x) for x in op["state"]]
@@ -578,7 +594,7 @@ def run(ctx):
     shapes = set()
     for c, o in zip(cases, obs):
         for op, ob in zip(c["ops"], o[1:]):
-            key = op["op"] + (":" + op["kind"] if op["op"] in ("block", "putrace") else "") + "/" + ob["res"]
+            key = op["op"] + (":" + op["kind"] if op["op"] in ("block", "putrace", "rmrace") else "") + "/" + ob["res"]
             kinds[key] = kinds.get(key, 0) + 1
             shapes.add((key, len(ob["lists"]), ob["orphan"] > 0, ob["len"]))
     ctx.cov["distinct_nontrivial"] = len(shapes)
